@@ -1,11 +1,38 @@
 # Claimed properties (exec'd by mkmanifest.py).  claim(id, technique, level text, level note, DESIGN.md ref)
-claim('C03', 'TLC trace validation of recorded construction calls against the TLA+ definition CollFn/ConstFn/VarFn',
+TV = 'TLC trace validation: every recorded call of the real library is explained by the MddApi action; TLC recomputes the expected table from the MddFun definition'
+claim('C03', TV + ' (CollFn/ConstFn/VarFn)',
       'Every recorded construction call (single minterm, minterm collection max/min with default, constant, variable) is explained by the '
       'MddApi action whose result is the MddFun table; TLC recomputes the expected table for every call and compares all points. '
       'Exhaustive over all single minterms on tiny shapes per forest kind x rule; seeded random collections on shapes up to 4 variables.',
       'Bounded: tiny shapes exhaustively, random shapes by seed.', '6 C03')
-claim('C04', 'TLC trace validation of set-algebra calls against pointwise TLA+ definitions, all pairs on tiny domains x forest triples',
+claim('C04', TV + ' (UnionFn/InterFn/DiffFn/ComplFn/CrossFn), all pairs on tiny domains x forest triples',
       'All 16x16 operand pairs over <2,2> (sets) and <2> (relations) for UNION/INTERSECTION/DIFFERENCE/COMPLEMENT/CROSS across operand/result '
       'forest triples that include two distinct forests of the same rule; operands re-read after each call; warm and cleared compute tables; '
-      'TLC decides every call against UnionFn/InterFn/DiffFn/ComplFn/CrossFn.',
+      'TLC decides every call against the pointwise definition.',
       'Quick runs a seeded subset of the forest triples; thorough all of them.', '6 C04')
+claim('C05', TV + ' (ArithFn/CmpFn/UserFn/DistIncFn/MaxRange/MinRange with C++ scalar semantics and EV+ infinity rules)',
+      'Every pair of functions over <2> with palette values (negative, zero, positive, large, +infinity) per forest kind (MT int/real, EV+, EV*; sets and '
+      'relations), every arithmetic operation and comparison, three distinct operand/result forests over all reduction-rule triples (thorough); structured '
+      'operands that trigger each shortcut; error outcomes (DIVIDE_BY_ZERO, SUBTRACT_INFINITY, INFINITY_DIV_INFINITY) required exactly where a point is an invalid '
+      'scalar case; named deviations for the shortcut classes that are listed as known findings.',
+      'Reals only on the dyadic grid; 0*infinity and infinity->MT conversions are undocumented and left unconstrained.', '6 C05')
+claim('C08', TV + ' (ReachB/ReachD least fixed point computed by TLC)',
+      'REACHABLE_TRAD_FS/NOFS/SATUR forward and backward: every initial set x every relation over <2>, seeded pairs on larger shapes; boolean, MT-integer '
+      'distance and EV+ distance; relation forests of all three rules; same and distinct initial/result forests; call sequences share compute tables and the '
+      'cached relation split; all algorithms write into one result forest so identity of their results is compared as well.',
+      'Saturation with non identity-reduced relation forests is a listed known finding (class keyed by the relation forest rule).', '6 C08')
+claim('C09', TV + ' (PostImageB/PreImageB/DistImage/VecMat)',
+      'POST_IMAGE/PRE_IMAGE for boolean sets (every set x every relation over <2>), MT-integer and EV+ distance functions, VM/MV multiply for integer and dyadic '
+      'real vectors and matrices, relation forests of all three rules, operands re-read after each call.',
+      'Sampled beyond <2>.', '6 C09')
+claim('C10', TV + ' (CopyFn with the documented scalar conversion), round trip identity',
+      'Every ordered pair of forest kinds of the same shape x reduction-rule pairs; all boolean functions on the smallest shapes, palette tables elsewhere; '
+      'each copy is copied back and the identity of the round trip is compared with the original edge.',
+      'infinity -> non-EV+ and inexact real -> integer conversions are not documented and left unconstrained.', '6 C10')
+claim('C15', TV + ' (IndexSetFn/ElemOf/CardFn), exhaustive over all sets of tiny domains',
+      'Every boolean set over <2,2>, <2,3> (thorough <2,2,2>, <3,3>) incl. empty and full, fully- and quasi-reduced sources: index-set table, getElement(i) for all i in -1..n+1, stored cardinality.',
+      'Exhaustive on the named shapes only.', '6 C15')
+claim('C20', TV + ' (SatOutcome = ReachB over the union of the events)',
+      'Event lists with overlapping/disjoint supports, self-loops, unchanged top variable, empty events; by events and by levels with all five splitting options; '
+      'relation forests of all rules; result compared with TLC\'s least fixed point and, for identity, with REACHABLE_TRAD_NOFS on the union relation.',
+      'Non identity-reduced relation forests are a listed known finding.', '6 C20')
